@@ -30,12 +30,12 @@ def run_family(prop, family, tier, sizes_q, sizes_t, modes, l1, l3_calls, text, 
     # L3: large seeded inputs, proxy summaries judged by TLC
     inputs = []
     l3s = l3_sizes or ([999999, 1000000, 1000003] + ([100000, 10000000] if thorough else []))
-    l3modes = ["uni", "bias", "runsbias", "periodic"] + (["heavy", "step", "alt", "halves", "onehot", "const1"] if thorough else ["heavy"])
+    l3modes = ["uni", "bias", "runsbias", "periodic"] + (["heavy", "dombyte", "step", "alt", "halves", "onehot", "const1"] if thorough else ["heavy"])
     iid = 0
     for n in l3s:
         # byte-aligned lengths also exercise the byte-oriented entry points: always give them a uniform and a heavily
         # biased input (pattern counts far above 2^16)
-        for mode in (l3modes if thorough else (["uni", "heavy"] if n % 8 == 0 else [l3modes[iid % len(l3modes)], l3modes[(iid + 1) % len(l3modes)]])):
+        for mode in (l3modes if thorough else (["uni", "dombyte"] if n % 8 == 0 else [l3modes[iid % len(l3modes)], l3modes[(iid + 1) % len(l3modes)]])):
             iid += 1
             inputs.append({"id": iid, "mode": mode, "n": n, "seed": rng.randrange(1 << 40), "calls": l3_calls(n)})
     from checks import stattrace
